@@ -1,9 +1,12 @@
 ----------------------------- MODULE MC_Instant -----------------------------
 EXTENDS InstantMachine, TLC, Json
 One == FromInt(1)
+P63 == [s |-> 1, l |-> <<5808, 5477, 368, 3372, 922>>]
 MCInsts == {Zero, One, Neg(One), FromInt(999999), FromInt(-999999), FromInt(1000000), FromInt(-1000000), FromInt(-1000001),
             MaxInstantBig, Neg(MaxInstantBig), Sub(MaxInstantBig, One), Add(Neg(MaxInstantBig), One),
-            K9(FromInt(1700000000)), Neg(K9(FromInt(1700000000))), Add(K9(FromInt(-86400)), FromInt(-1))}
+            K9(FromInt(1700000000)), Neg(K9(FromInt(1700000000))), Add(K9(FromInt(-86400)), FromInt(-1)),
+            \* +-2^63 ns and 2^63 - 1: differences from zero that are the extremes of a 64-bit integer
+            P63, Neg(P63), Sub(P63, One)}
 TD(h, mi, s, ms, us, ns) == Dur10(Zero, Zero, Zero, Zero, h, mi, s, ms, us, ns)
 \* exactly representable as doubles: 2^70, 2^52, 3 * 2^60 (literal limbs: deep recursion is not available at constant level)
 P70 == [s |-> 1, l |-> <<3424, 1130, 7174, 1620, 8059, 11>>]
@@ -17,8 +20,8 @@ MCDurs == {TD(Zero, Zero, Zero, Zero, Zero, Zero), TD(Zero, Zero, Zero, Zero, Ze
            Dur10(Zero, Zero, Zero, One, Zero, Zero, Zero, Zero, Zero, Zero), Dur10(Zero, Zero, One, Zero, Zero, Zero, Zero, Zero, Zero, Zero),
            Dur10(Zero, One, Zero, Zero, One, Zero, Zero, Zero, Zero, Zero), Dur10(Neg(One), Zero, Zero, Zero, Zero, Zero, Zero, Zero, Zero, Zero)}
 CaseOf ==
-  IF last.op = "add" THEN [op |-> "Instant.add", cls |-> "add", args |-> [recv |-> last.a, dur |-> last.dur], out |-> last.out]
-  ELSE IF last.op = "subtract" THEN [op |-> "Instant.subtract", cls |-> "subtract", args |-> [recv |-> last.a, dur |-> last.dur], out |-> last.out]
+  IF last.op = "add" THEN [op |-> "Instant.add", cls |-> "add/" \o last.via, args |-> [recv |-> last.a, dur |-> last.dur, via |-> last.via], out |-> last.out]
+  ELSE IF last.op = "subtract" THEN [op |-> "Instant.subtract", cls |-> "subtract/" \o last.via, args |-> [recv |-> last.a, dur |-> last.dur, via |-> last.via], out |-> last.out]
   ELSE IF last.op = "epochMs" THEN [op |-> "Instant.epochMs", cls |-> IF last.a.s < 0 THEN "neg" ELSE "nonneg", args |-> [recv |-> last.a], out |-> last.out]
   ELSE [op |-> "Instant." \o last.op, cls |-> last.op \o "/" \o last.lg, args |-> [recv |-> last.a, other |-> last.b, st |-> [largest |-> last.lg]], out |-> last.out]
 Emit == last.op = "none" \/ PrintT("CASE " \o ToJson(CaseOf))
